@@ -69,7 +69,7 @@ class Runner:
             return False
         if "_harness" in rec:
             v = self._classify_harness(rec, None)
-            return bool(v) and (v["class"], v["sig"]) == key
+            return bool(v) and not v.get("ignore") and (v["class"], v["sig"]) == key
         return any((v["class"], v["sig"]) == key for v in rec.get("violations", []))
 
     # ---- minimiser
@@ -140,7 +140,9 @@ class Runner:
             if "_harness" in rec:
                 case = payload.get("case")
                 v = self._classify_harness(rec, payload)
-                if v:
+                if v and v.get("ignore"):
+                    agg["outcomes"]["SKIPPED:" + v.get("reason", "not_this_property")] += 1  # neither a pass nor a failure of this property
+                elif v:
                     pending_harness.append((tag, payload, rec, v))
                     agg["outcomes"]["BUDGET_CANDIDATE"] += 1
                 else:
